@@ -106,6 +106,45 @@ pub fn name_variants() -> Vec<(String, Vec<u8>)> {
     ]
 }
 
+/// Names whose attribute values lie outside the alphabet / encoding rules of their string type, under several
+/// attribute types (an importer must refuse them or carry them in a way that is emitted correctly again).
+pub fn off_alphabet_names() -> Vec<(String, Vec<u8>)> {
+    let atv = |o: &[u64], tag: u32, v: &[u8]| seq(&[oid(o), string(tag, v)]);
+    let types: [(&str, &[u64]); 4] = [("C", &[2, 5, 4, 6]), ("O", &[2, 5, 4, 10]), ("CN", &[2, 5, 4, 3]), ("serialNumber", &[2, 5, 4, 5])];
+    let values: Vec<(&str, u32, Vec<u8>)> = vec![
+        ("Printable '&'", T_PRINTABLE, b"A&B".to_vec()),
+        ("Printable '_'", T_PRINTABLE, b"a_b".to_vec()),
+        ("Printable '*'", T_PRINTABLE, b"*.x".to_vec()),
+        ("Printable '@'", T_PRINTABLE, b"a@b".to_vec()),
+        ("Printable high bit", T_PRINTABLE, vec![b'a', 0xe9]),
+        ("Printable NUL", T_PRINTABLE, vec![b'a', 0]),
+        ("IA5 high bit", T_IA5, vec![b'a', 0x80]),
+        ("IA5 0xff", T_IA5, vec![0xff]),
+        ("Teletex high bytes", T_TELETEX, vec![0xc4, 0x80]),
+        ("BMP odd length", T_BMP, vec![0, 65, 0]),
+        ("BMP lone surrogate", T_BMP, vec![0xd8, 0]),
+        ("Universal length 3", T_UNIVERSALSTR, vec![0, 0, 65]),
+        ("Universal surrogate", T_UNIVERSALSTR, vec![0, 0, 0xd8, 0]),
+        ("UTF8 overlong", T_UTF8, vec![0xc0, 0x80]),
+        ("UTF8 truncated", T_UTF8, vec![0xe2, 0x82]),
+        ("UTF8 surrogate", T_UTF8, vec![0xed, 0xa0, 0x80]),
+    ];
+    let mut v = Vec::new();
+    for (tn, t) in types {
+        for (vn, tag, bytes) in &values {
+            v.push((format!("{} = {}", tn, vn), seq(&[set_of(&[atv(t, *tag, bytes)])])));
+            v.push((format!("O=ok, {} = {}", tn, vn), seq(&[set_of(&[atv(&[2, 5, 4, 10], T_UTF8, b"ok")]), set_of(&[atv(t, *tag, bytes)])])));
+        }
+    }
+    v
+}
+
+/// A CA certificate (basicConstraints cA, keyCertSign) with the given subject = issuer name, stub-signed.
+pub fn foreign_ca_with_name(name: Vec<u8>, spki: &[u8]) -> Vec<u8> {
+    let bc = [RefExt::new(OID_BC, true, seq(&[boolean(true)])), RefExt::new(OID_KU, true, bitstring(&[0x06], 1))];
+    cert_with(name, &bc, Some(2), uint(&[5]), spki)
+}
+
 fn cert_with(subject: Vec<u8>, exts: &[RefExt], version: Option<u64>, serial: Vec<u8>, spki: &[u8]) -> Vec<u8> {
     let alg = Alg::Ed25519;
     let mut items = Vec::new();
@@ -183,6 +222,48 @@ pub fn foreign_csrs(zoo: &[ZooKey]) -> Vec<(String, Vec<u8>, bool)> {
     v.push(("csr duplicate SAN extension in one request".into(), sign(dup_san.cri()), false));
     let two_values = RefCsr { subject: subj.clone(), spki: z.spki.clone(), attrs: vec![(OID_EXT_REQ.to_vec(), set_of(&[seq(&[san.der()]), seq(&[san2.der()])]))] };
     v.push(("csr extensionRequest with two values".into(), sign(two_values.cri()), false));
+    // repeated list-valued requests: three SAN instances (overlapping), two EKU instances, an empty instance first
+    let san3 = RefExt::new(OID_SAN, false, ext_san(&[AbsGn::Dns(b"a.example".to_vec()), AbsGn::Ip(vec![192, 0, 2, 9])]));
+    let san_empty = RefExt::new(OID_SAN, false, ext_san(&[]));
+    let mk = |exts: &[RefExt]| RefCsr { subject: subj.clone(), spki: z.spki.clone(), attrs: vec![(OID_EXT_REQ.to_vec(), ext_request_values(exts))] };
+    v.push(("csr three SAN extensions in one request".into(), sign(mk(&[san.clone(), san2.clone(), san3.clone()]).cri()), false));
+    v.push(("csr empty SAN extension before a non-empty one".into(), sign(mk(&[san_empty.clone(), san2.clone()]).cri()), false));
+    v.push(("csr non-empty SAN extension before an empty one".into(), sign(mk(&[san.clone(), san_empty]).cri()), false));
+    let eku_a = RefExt::new(OID_EKU, false, seq(&[oid(&[1, 3, 6, 1, 5, 5, 7, 3, 1])]));
+    let eku_b = RefExt::new(OID_EKU, false, seq(&[oid(&[1, 3, 6, 1, 5, 5, 7, 3, 2]), oid(&[1, 3, 6, 1, 5, 5, 7, 3, 8])]));
+    v.push(("csr two EKU extensions in one request".into(), sign(mk(&[eku_a.clone(), eku_b.clone()]).cri()), false));
+    v.push(("csr SAN, EKU, SAN, EKU in one request".into(), sign(mk(&[san.clone(), eku_a, san2.clone(), eku_b]).cri()), false));
+    // the same key under SubjectPublicKeyInfo algorithm identifiers other than the registered one (validly signed):
+    // acceptable only if the issued certificate repeats the request's bytes
+    let ed_null = seq(&[seq(&[oid(&[1, 3, 101, 112]), tlv(0x05, &[])]), bitstring(&z.raw_pub, 0)]);
+    v.push(("csr spki: id-Ed25519 with NULL parameters".into(), sign(seq(&[uint(&[0]), name_der(&subj), ed_null, ctx_cons(0, &[])])), false));
+    if let Some(r) = zoo.iter().find(|z| z.kind == KeyKind::Rsa2048 && z.format == KeyFormat::Pkcs8) {
+        for (a, an) in [(Alg::RsaSha256, "sha256"), (Alg::RsaSha384, "sha384")] {
+            let rs = ossl_signer(r.pkey.clone(), a);
+            let rsign = |cri: Vec<u8>| {
+                let sig = rs(&cri).unwrap();
+                assemble(&cri, a.sig_alg_der(), &sig)
+            };
+            let no_null = seq(&[seq(&[oid(&[1, 2, 840, 113549, 1, 1, 1])]), bitstring(&r.raw_pub, 0)]);
+            v.push((format!("csr spki: rsaEncryption without NULL parameters ({})", an), rsign(seq(&[uint(&[0]), name_der(&subj), no_null, ctx_cons(0, &[])])), false));
+            let odd_params = seq(&[seq(&[oid(&[1, 2, 840, 113549, 1, 1, 1]), seq(&[])]), bitstring(&r.raw_pub, 0)]);
+            v.push((format!("csr spki: rsaEncryption with empty SEQUENCE parameters ({})", an), rsign(seq(&[uint(&[0]), name_der(&subj), odd_params, ctx_cons(0, &[])])), false));
+            // control: the registered form, signed the same way
+            v.push((format!("csr spki: rsaEncryption registered form, reference-built ({})", an), rsign(seq(&[uint(&[0]), name_der(&subj), r.spki.clone(), ctx_cons(0, &[])])), false));
+        }
+    }
+    if let Some(p) = zoo.iter().find(|z| z.kind == KeyKind::P256 && z.format == KeyFormat::Pkcs8) {
+        let ps = ossl_signer(p.pkey.clone(), Alg::EcP256);
+        let psign = |cri: Vec<u8>| {
+            let sig = ps(&cri).unwrap();
+            assemble(&cri, Alg::EcP256.sig_alg_der(), &sig)
+        };
+        // id-ecPublicKey with the curve given, then a stray NULL after it / the curve missing
+        let stray = seq(&[seq(&[oid(&[1, 2, 840, 10045, 2, 1]), oid(&[1, 2, 840, 10045, 3, 1, 7]), tlv(0x05, &[])]), bitstring(&p.raw_pub, 0)]);
+        v.push(("csr spki: id-ecPublicKey P-256 with a stray NULL after the curve".into(), psign(seq(&[uint(&[0]), name_der(&subj), stray, ctx_cons(0, &[])])), false));
+        let nocurve = seq(&[seq(&[oid(&[1, 2, 840, 10045, 2, 1])]), bitstring(&p.raw_pub, 0)]);
+        v.push(("csr spki: id-ecPublicKey without a curve".into(), psign(seq(&[uint(&[0]), name_der(&subj), nocurve, ctx_cons(0, &[])])), false));
+    }
     v.push(("csr without attributes field".into(), sign(seq(&[uint(&[0]), name_der(&subj), z.spki.clone()])), false));
     v.push(("csr version 1".into(), sign(seq(&[uint(&[1]), name_der(&subj), z.spki.clone(), ctx_cons(0, &[])])), false));
     v.push(("csr challengePassword attribute".into(), sign(RefCsr { subject: subj.clone(), spki: z.spki.clone(), attrs: vec![(vec![1, 2, 840, 113549, 1, 9, 7], set_of(&[string(T_PRINTABLE, b"pw")]))] }.cri()), false));
